@@ -38,13 +38,16 @@ let parse_sym (s : string) : outcome =
   | "RF" -> ORegionNotFound | "B0" -> OBusy false | "B1" -> OBusy true | "BD" -> OBusyDeadline
   | "SC" -> OStaleCommand | "SM" -> OStoreNotMatch | "DN" -> ODataIsNotReady | "MT" -> OMaxTsNotSynced
   | "DF" -> ODiskFull | "UK" -> OUnknown
+  | "UR" -> OUndetermined | "RP" -> ORecovery | "IW" -> OWitness | "FP" -> OFlashback | "FN" -> OFlashbackNotPrepared
+  | "KN" -> OKeyNotInRegion | "BV" -> OBucketVersion | "MP" -> OMismatchPeer | "RL" -> ORaftTooLarge
+  | "NI" -> ONotInitialized | "RN" -> OReadIndexNotReady | "PM" -> OMerging | "IM" -> OInvalidMaxTs | "DM" -> ODeadlineMsg
   | _ when String.length s = 2 && s.[0] = 'E' -> ORpcErr (lv s.[1])
   | _ when String.length s = 2 && s.[0] = 'D' -> ODeadline (lv s.[1])
   | _ when String.length s = 2 && s.[0] = 'N' -> ONotLeaderHint (nat_of_int (Char.code s.[1] - 48))
   | _ -> failwith ("symbol " ^ s)
 
 let kind_name k = match k with BoRPC -> "rpc" | BoRegionMiss -> "miss" | BoRegionScheduling -> "sched" | BoBusy -> "busy"
-                             | BoDiskFull -> "disk" | BoMaxTs -> "maxts"
+                             | BoDiskFull -> "disk" | BoMaxTs -> "maxts" | BoRecovery -> "recov" | BoWitness -> "witness" | BoNotInit -> "notinit"
 let b01 b = if b then "1" else "0"
 (* ERearm is internal to the model (not observable): dropped from the compared trace *)
 let show_events evs =
@@ -59,7 +62,7 @@ let show_events evs =
   if l = [] then "-" else String.concat ";" l
 let show_result r = match r with
   | RSuccess i -> "S" ^ string_of_int (int_of_nat i) | RRegionErr i -> "R" ^ string_of_int (int_of_nat i)
-  | RPseudo -> "P" | RError -> "E"
+  | RPseudo -> "P" | RError -> "E" | RFatal _ -> "E"
 
 let split_list s sep = if s = "-" || s = "" then [] else String.split_on_char sep s
 
